@@ -107,7 +107,8 @@ func (s *Scanner) Scan(sql string) []Finding {
 
 // Rules returns the registered rules (for introspection).
 func (s *Scanner) Rules() []Rule {
-	return s.rules
+	// a copy: writing into the returned slice must not change the scanner
+	return append([]Rule(nil), s.rules...)
 }
 
 func defaultRules() []Rule {
